@@ -14,6 +14,9 @@ def fact_body_Exec : List String := [
 def fact_body_ExecProcess : List String := [
     "{ return Exec(wrapExecCommand(a1), a2) }"]
 
+def fact_body_Key_String : List String := [
+    "{ var v1 strings.Builder if k.Alt { v1.WriteString(\"alt+\") } if k.Type == KeyRunes { if k.Paste { v1.WriteByte('[') } v1.WriteString(string(k.Runes)) if k.Paste { v1.WriteByte(']') } return v1.String() } else if v2, v3 := keyNames[k.Type]; v3 { v1.WriteString(v2) return v1.String() } return \"\" }"]
+
 def fact_body_Program_Kill : List String := [
     "{ p.shutdown(true) }"]
 
